@@ -63,6 +63,15 @@ def run_cases(ck, res, n_cases, n_interval):
         k = r.randint(1, 4)
         m = r.randint(1, 4)
         subs, kinds = zip(*[make_sub(C, torch, r, m) for _ in range(k)])
+        if k >= 2 and ci % 4 == 2:
+            # the SAME condition object at several positions (EnsembleCondition(ivp, ivp), *[cond] * 3): column j must still be
+            # sub-condition j applied to output j, not to the output of the object's first occurrence
+            subs, kinds = list(subs), list(kinds)
+            j1 = r.randrange(k)
+            for j2 in range(k):
+                if j2 != j1 and r.random() < 0.7:
+                    subs[j2], kinds[j2] = subs[j1], kinds[j1] + '(same object)'
+            subs, kinds = tuple(subs), tuple(kinds)
         nrows = 3
         X = [enga.col(torch, [dy(r, -2, 2, 4) if m != 3 or j else dy(r, 0.25, 3, 4) for _ in range(nrows)]) for j in range(m)]
         ncols = k if ci % 7 else k + r.choice([-1, 1, 2])           # every 7th case: mismatching width
